@@ -32,11 +32,13 @@ RECURSIVE BuildSteps(_, _, _, _, _, _, _), BuildStep(_, _, _, _, _, _, _),
           BuildCatches(_, _, _, _, _), BuildCatchSteps(_, _, _, _, _, _),
           BuildTimeouts(_, _, _, _, _)
 
+NoOpts == [v |-> 0, w |-> 0]
 EmptyNode(kind, level) ==
   [kind |-> kind, level |-> level, parent |-> NIL, prev |-> NIL, next |-> NIL,
    kids |-> <<>>, ckids |-> <<>>, tkids |-> <<>>,
    cond |-> NoCond, else |-> FALSE, needs |-> {}, uses |-> "",
-   catches |-> <<>>, timeouts |-> <<>>]
+   catches |-> <<>>, timeouts |-> <<>>,
+   to |-> NIL, cpid |-> NIL, opts |-> NoOpts]     \* a sub-workflow call (uses = "sub")
 
 (* tree.make: duplicate ids are an error (node_tree.rs:58-66) *)
 Make(T, id, node) ==
@@ -100,6 +102,9 @@ BuildActs(T, acts, parent, prev, level) ==
   ELSE LET a == Head(acts)
            node == [EmptyNode("act", level) EXCEPT
                       !.cond = a.cond, !.uses = a.uses,
+                      !.to = IF "to" \in DOMAIN a THEN a.to ELSE NIL,
+                      !.cpid = IF "cpid" \in DOMAIN a THEN a.cpid ELSE NIL,
+                      !.opts = IF "opts" \in DOMAIN a THEN a.opts ELSE NoOpts,
                       !.catches = [i \in DOMAIN a.catches |-> a.catches[i].on],
                       !.timeouts = [i \in DOMAIN a.timeouts |->
                                       [on |-> a.timeouts[i].on, secs |-> a.timeouts[i].secs]]]
